@@ -25,6 +25,7 @@ LEVEL_TEXT = (
     "nothing else except where the reference says the operation is undefined, and the two runs must agree bit for bit "
     "at every valid cell and in outcome. A program-level slice reads CSV columns with a MissingVal marker and feeds "
     "them to each command through Program.from_source, with two different marker values. Sampled, not exhaustive."
+    " Whole generated models (every result's missing cells against the reference after Program.run) and the marker cases through the NetCDF reader (fill-value masks, with and without a MissingValue of the reader's own) are further parts."
 )
 LEVEL_NOTE = "Trusts numpy.ma and the reference mask rule in vcheck/ref; NetCDF fill-value reading is covered under C18."
 RULE = (
